@@ -420,8 +420,24 @@ func (c *ProcCase) Main() {
 		for i := 0; i < st.Subs; i++ {
 			i := i
 			go func() {
+				var own chan tracing.ITrace // every second subscriber keeps one channel and joins with it again and again
 				for round := 0; ; round++ {
 					ch := make(chan tracing.ITrace, (i+round)%4)
+					if i%2 == 1 {
+						if own == nil {
+							own = ch
+						}
+						ch = own
+						// leftovers of the previous session
+						for more := true; more; {
+							select {
+							case _, ok := <-ch:
+								more = ok
+							default:
+								more = false
+							}
+						}
+					}
 					proc.Tracer().SubscribeChannel(ch)
 					env.fault("subscriber-joins-and-leaves")
 					n := 1 + (i+round)%5
